@@ -98,7 +98,7 @@ Proof. exact witness_timer_no_reset. Qed.
    (m+1)-th is refused *)
 Theorem c10_threshold : forall src c code why s n,
   0 < c_max_retries c -> retry s = Some (S n) -> retry_check src c code why s = true -> 0 <= rc s -> reserved s = false ->
-  reset_guarded src = true ->
+  reset_guarded src = true -> retry_disabled src c = false ->
   let '(s', o, r) := rs_retry src c code why s in
   (rc s < c_max_retries c -> r = RShould /\ rc s' = rc s + 1 /\ reserved s' = true) /\
   (c_max_retries c <= rc s -> r = ROver /\ rc s' = rc s /\ reserved s' = false).
